@@ -31,7 +31,7 @@ ASSUMPTIONS = [
     '_binary_packet, manager.rooms/callbacks/pending_disconnect, engine.io '
     'sockets) are compared with a freshly constructed server',
 ]
-BUDGET = {'quick': 600, 'thorough': 24000}
+BUDGET = {'quick': 4000, 'thorough': 48000}
 FLOOR = {'quick': 60, 'thorough': 2000}
 NSS = ['/', '/a', '/ref', '/zzz']
 BAD = ['', '9', '2', '2[', '2[]', '2{}', '3', '31', '31{', '5', '51-', '4',
